@@ -34,6 +34,11 @@ size_t gi;      /* ghost element / member index */
 size_t gj;      /* second ghost index           */
 size_t gp;      /* ghost first-difference index (C19)  */
 
+const char* g_addr;   /* ghost: an arbitrary byte address */
+size_t nondet_size_t(void);
+const char* nondet_ptr(void);
+#define OP2_HAVOC_GHOSTS() do { gk = nondet_size_t(); gi = nondet_size_t(); gj = nondet_size_t(); gp = nondet_size_t(); g_addr = nondet_ptr(); } while (0)
+
 /* ---- std:: helpers mapped 1:1 ----------------------------------------- */
 #define OP2_SWAP(a, b) do { __typeof__(a) op2_swap_tmp = (a); (a) = (b); (b) = op2_swap_tmp; } while (0)
 #define OP2_UMAX_OF_EXPR(x) ((__typeof__(x))~(__typeof__(x))0)      /* std::numeric_limits<decltype(x)>::max(), unsigned x */
